@@ -4,6 +4,7 @@ package main
 
 import (
 	"fmt"
+	"os"
 	"go/ast"
 	"go/token"
 	"go/types"
@@ -400,7 +401,7 @@ func (x *Exec) frameObligations(entry, final *State, alloc0 *Term) {
 		seen := map[string]bool{}
 		var walk func(t *Term, cond *Term)
 		walk = func(t *Term, cond *Term) {
-			if t == et || cond.IsFalse() {
+			if t == et || cond.IsFalse() || (t.kind == kConst && strings.HasPrefix(t.op, "H0_")) {
 				return
 			}
 			key := fmt.Sprintf("%d|%d", t.id, cond.id)
@@ -419,6 +420,9 @@ func (x *Exec) frameObligations(entry, final *State, alloc0 *Term) {
 				return
 			}
 			writes = append(writes, wr{cond, nil})
+			if os.Getenv("GOVC_DEBUG") != "" {
+				fmt.Fprintf(os.Stderr, "frame %s: unknown base %s (entry %s)\n", name, c.Show(t), c.Show(et))
+			}
 		}
 		walk(ft, c.True())
 		var goals []*Term
@@ -430,7 +434,8 @@ func (x *Exec) frameObligations(entry, final *State, alloc0 *Term) {
 			if isFreshRef(w.idx) {
 				continue
 			}
-			var alts []*Term
+			// semantic freshness: the root object of the written address was not allocated at entry
+			alts := []*Term{c.Not(c.Select(alloc0, embRoot(w.idx)))}
 			for _, l := range locs {
 				alts = append(alts, c.Eq(w.idx, l.ref))
 			}
@@ -454,6 +459,20 @@ func isFreshRef(t *Term) bool {
 			return isFreshRef(t.args[1]) && isFreshRef(t.args[2])
 		default:
 			return false
+		}
+	}
+}
+
+// embRoot strips embedded-object address arithmetic and element references: the root object.
+func embRoot(t *Term) *Term {
+	for {
+		switch {
+		case t.kind == kApp && t.op == "+" && len(t.args) == 2 && t.args[1].kind == kIntLit && t.args[0].kind == kApp && t.args[0].op == "*" && t.args[0].args[1].kind == kIntLit:
+			t = t.args[0].args[0]
+		case t.kind == kApp && t.op == "elemref":
+			t = t.args[0]
+		default:
+			return t
 		}
 	}
 }
